@@ -19,6 +19,15 @@ Families
               5 characters x {put_char, put_code, write, format ~w/~a/~s, nl},
               byte sequences with put_byte, wrong-type writers; the file is read
               back by Python (byte-exact UTF-8) and by get_char/get_code/get_byte
+  big         files of 8192/16384 (thorough: 24576) bytes +-3 with 1-, 2-, 3-, 4-byte
+              fillers and one 2-/3-/4-byte character starting at every byte offset
+              -3..+1 around each 8 KiB reader-chunk boundary, written with put_char
+              (per character) and with format ~s (bytes checked by Python), read back
+              completely with get_char, peek_char+get_char, get_code,
+              peek_code+get_code, get_n_chars in chunks of 7/4096/8191/8192/8193/20000,
+              read_term of the text as one quoted atom; the whole character
+              sequence, at_end_of_stream and the final position, and the position
+              right after the boundary character, are compared with Python
   mem         write/2 to a file vs write_term_to_chars/3, read_term/3 from a file
               vs read_term_from_chars/3 (in-memory twins).  This tree has no
               Prolog-level constructor for an in-memory (Stream::Byte) stream -- they
@@ -80,8 +89,9 @@ def bound_text(tier):
     d, dx, dw = depth(tier)
     return ("read-deep: all core-op sequences of length %d and all sequences of length %d with a wrong-type op over "
             "%d text + %d binary payloads x 3 eof_actions; read-wide: 156 payloads x 3 eof_actions x all sequences "
-            "of length %d over 11 ops; write: all (char,writer) sequences of length <= %d, bytes <= 3; mem twins"
-            % (d, dx, len(TEXT_DEEP), len(BIN_DEEP), dw, 2 if tier == "quick" else 3))
+            "of length %d over 11 ops; write: all (char,writer) sequences of length <= %d, bytes <= 3; mem twins; "
+            "big: %d files around the %s-byte boundaries x 13 readers"
+            % (d, dx, len(TEXT_DEEP), len(BIN_DEEP), dw, 2 if tier == "quick" else 3, len(big_files(tier)), big_bounds(tier)))
 
 
 def wide_payloads():
@@ -107,6 +117,8 @@ def shards(tier):
         sh.append(("write", w))
     sh.append(("wbytes",))
     sh.append(("mem",))
+    for i in range(BIG_SHARDS):
+        sh.append(("big", i))
     return sh
 
 
@@ -533,6 +545,181 @@ def run_mem(w, acc):
 
 # ---------------------------------------------------------------------------
 
+# ---------------------------------------------------------------------------
+# large payloads: files longer than the reader's 8 KiB chunk, a multi-byte character on the chunk boundary
+
+BIG_SHARDS = 24
+BIG_FILLERS = ["a", "é", "€", "\U0001F600"]
+BIG_MB = ["é", "€", "\U0001F600"]
+
+
+def big_bounds(tier):
+    return [8192, 16384] if tier == "quick" else [8192, 16384, 24576]
+
+
+def big_files(tier):
+    """-> [(tag, kind, content, body, K)]: kind plain|quoted; body = the characters a reader must deliver
+    (for quoted files the atom's text); K = index just past the boundary character"""
+    out = []
+    seen = set()
+    deltas = range(-3, 2) if tier == "quick" else range(-4, 3)
+
+    def add(tag, kind, content, body, k):
+        if content not in seen:
+            seen.add(content)
+            out.append((tag, kind, content, body, k))
+
+    for B in big_bounds(tier):
+        for f in BIG_FILLERS:
+            wf = len(f.encode("utf-8"))
+            for c in BIG_MB:
+                wc = len(c.encode("utf-8"))
+                for d in deltas:
+                    q = B + d
+                    r = q % wf
+                    prefix = "b" * r + f * ((q - r) // wf)
+                    for ti, tail in enumerate(("", f * 2 + "z")):
+                        add("st:%d:%dB:%dB:%+d:%d" % (B, wf, wc, d, ti), "plain", prefix + c + tail, prefix + c + tail,
+                            len(prefix) + 1)
+                    if f in ("a", "€"):
+                        q1 = q - 1     # the opening quote
+                        r1 = q1 % wf
+                        body = "b" * r1 + f * ((q1 - r1) // wf) + c + f
+                        add("qa:%d:%dB:%dB:%+d" % (B, wf, wc, d), "quoted", "'" + body + "'.\n", body, len(body))
+            for e in range(-3, 4):
+                n = B + e
+                r = n % wf
+                content = "b" * r + f * ((n - r) // wf)
+                # index just past the character that contains byte B-1
+                k = min(len(content), r + (max(0, B - r - 1) // wf) + 1)
+                add("sz:%d:%dB:%+d" % (B, wf, e), "plain", content, content, k)
+    return out
+
+
+def big_readers(kind, body, k):
+    if kind == "quoted":
+        return [("rt",)]
+    return [("gc",), ("pgc",), ("gd",), ("pgd",), ("gn", 7), ("gn", 4096), ("gn", 8191), ("gn", 8192), ("gn", 8193),
+            ("gn", 20000), ("pos", k), ("npos", k), ("npos", max(0, k - 1))]
+
+
+def reader_term(rd):
+    return rd[0] if len(rd) == 1 else "%s(%d)" % rd
+
+
+def big_expect(rd, content, body):
+    """-> (cmp, at_end, pos) ; pos None = not compared"""
+    n = len(body)
+    nb = len(content.encode("utf-8"))
+    if rd[0] in ("pos", "npos"):
+        k = min(rd[1], n)
+        return ("took", k), k == n, len(body[:k].encode("utf-8"))
+    if rd[0] == "rt":
+        return ("eq", n), True, nb
+    return ("eq", n), True, nb
+
+
+def qbig(s):
+    out = ['"']
+    for c in s:
+        if c == '"':
+            out.append('\\"')
+        elif c == "\\":
+            out.append("\\\\")
+        elif c == "\n":
+            out.append("\\n")
+        else:
+            out.append(c)
+    out.append('"')
+    return "".join(out)
+
+
+def run_big(w, acc, files, only=None):
+    d = wdir()
+    for (tag, kind, content, body, k) in files:
+        p_pc = os.path.join(d, "big_pc.txt")
+        p_fm = os.path.join(d, "big_fm.txt")
+        lit = qbig(content)
+        rs = px.run_goals(w, ["c19_bigwrite(%s,pc,%s)" % (fmt(S(p_pc)), lit), "c19_bigwrite(%s,fmt,%s)" % (fmt(S(p_fm)), lit)])
+        want = content.encode("utf-8")
+        parts = tag.split(":")
+        where = "%s boundary=%s filler=%s" % (parts[0], parts[1], parts[2])
+        for wr, path, r in (("put_char", p_pc, rs[0]), ("format", p_fm, rs[1])):
+            acc.transitions += 1
+            case = {"kind": "big", "tag": tag, "reader": None}
+            v = None
+            if r.abn or r.status != "done" or len(r.sols) != 1:
+                v = ("big write %s %s: %s" % (wr, where, r.abn or "did not complete"), "written", repr(r.abn or r.exc or r.status))
+            else:
+                try:
+                    with open(path, "rb") as f:
+                        got = f.read()
+                except OSError as e:
+                    got = None
+                if got != want:
+                    v = ("big write %s %s: wrong bytes in file" % (wr, where), "%d bytes" % len(want),
+                         "missing" if got is None else "%d bytes, first difference at %d" % (len(got), first_diff(got, want)))
+            if v:
+                acc.case(True, "deviation")
+                acc.violation(v[0], dict(case, focus=v[0]), expected=v[1], observed=v[2])
+            else:
+                acc.case(True, "big:write:" + wr, sample={"file": tag, "bytes": len(want), "writer": wr})
+        readers = big_readers(kind, body, k)
+        if only:
+            readers = [rd for rd in readers if list(rd) == list(only)] or readers
+        blit = qbig(body)
+        r = px.run_goals(w, ["c19_big(%s,%s,[%s],R)" % (fmt(S(p_pc)), blit, ",".join(reader_term(x) for x in readers))])[0]
+        if r.abn or r.status != "done" or len(r.sols) != 1:
+            # attribute to a reader: one at a time
+            results = []
+            for rd in readers:
+                r1 = px.run_goals(w, ["c19_big(%s,%s,[%s],R)" % (fmt(S(p_pc)), blit, reader_term(rd))])[0]
+                results.append((rd, r1, None))
+        else:
+            results = [(rd, r, t) for rd, t in zip(readers, px.unlist(r.sols[0]["R"])[0])]
+        for rd, r1, t in results:
+            acc.transitions += 1
+            case = {"kind": "big", "tag": tag, "reader": list(rd)}
+            if t is None:
+                if r1.abn or r1.status != "done" or len(r1.sols) != 1:
+                    sig = "big read %s %s: %s" % (rd[0], where, r1.abn or "did not complete")
+                    acc.case(True, "deviation")
+                    acc.violation(sig, dict(case, focus=sig), expected="the file's characters", observed=repr(r1.abn or r1.exc or r1.status))
+                    continue
+                t = px.unlist(r1.sols[0]["R"])[0][0]
+            ecmp, eae, epos = big_expect(rd, content, body)
+            cmp_, ae, pos = t[2], t[3], t[4]
+            ocmp = (cmp_[0],) + tuple(cmp_[1:2]) if isinstance(cmp_, tuple) else (cmp_,)
+            bad = None
+            if ocmp != ecmp:
+                bad = "data %s" % ocmp[0]
+            elif (ae == "true") != eae:
+                bad = "at_end_of_stream=%s" % ae
+            elif pos != epos:
+                bad = "position wrong"
+            if bad:
+                sig = "big read %s %s: %s" % (rd[0], where, bad)
+                acc.case(True, "deviation")
+                acc.violation(sig, dict(case, focus=sig), expected=repr((ecmp, eae, epos)), observed=repr((cmp_, ae, pos))[:300])
+            else:
+                acc.case(True, "big:%s:%s" % (rd[0], parts[0]),
+                         sample={"file": tag, "bytes": len(want), "chars": len(body), "reader": reader_term(rd),
+                                 "result": repr(ecmp), "position": epos})
+        for pth in (p_pc, p_fm):
+            try:
+                os.remove(pth)
+            except OSError:
+                pass
+
+
+def first_diff(a, b):
+    for i, (x, y) in enumerate(zip(a, b)):
+        if x != y:
+            return i
+    return min(len(a), len(b))
+
+
+
 def run_shard(w, shard, tier):
     acc = px.ShardAcc()
     states = set()
@@ -561,6 +748,8 @@ def run_shard(w, shard, tier):
         run_wbytes(w, acc, tier)
     elif kind == "mem":
         run_mem(w, acc)
+    elif kind == "big":
+        run_big(w, acc, big_files(tier)[shard[1]::BIG_SHARDS])
     acc.states = len(states)
     return acc.result()
 
@@ -570,6 +759,15 @@ def recheck(w, case, tier):
     states = set()
     k = case["kind"]
     d = wdir()
+    if k == "big":
+        hit = [f for t in ("quick", "thorough") for f in big_files(t) if f[0] == case["tag"]]
+        if not hit:
+            return None
+        run_big(w, acc, hit[:1], only=case.get("reader"))
+        for v in acc.violations:
+            if v["sig"] == case.get("focus"):
+                return v
+        return acc.violations[0] if acc.violations else None
     if k == "read":
         data = bytes.fromhex(case["data"])
         path = os.path.join(d, "replay.dat")
